@@ -13,7 +13,7 @@ import random
 import numpy as np
 
 from harness.common import (Failure, cbool, cdtype, clist, cnat, copt, cres, cz, dtype_name, enc_array,
-                            exn_name, DTYPE_COQ)
+                            exn_name, relayout, DTYPE_COQ, LAYOUTS)
 
 PROP = "C11"
 NUM = ["bool", "int8", "int16", "int32", "int64", "uint8", "uint16", "uint32", "uint64",
@@ -54,13 +54,17 @@ def mk_array(e: dict) -> np.ndarray:
         vals = [bool(p) for p in e["flat"]]
     else:
         vals = list(e["flat"])
-    return np.array(vals, dtype=dt).reshape(e["shape"]) if e["shape"] != [] else np.array(vals[0], dtype=dt)
+    return relayout(np.array(vals, dtype=dt).reshape(e["shape"]), e.get("layout")) if e["shape"] != [] else np.array(vals[0], dtype=dt)
 
 
 def rand_elem(rng, dt, rank, maxdim=3) -> dict:
     shape = [rng.choice([0, 1, 1, 2, 2, 3][: maxdim + 3]) for _ in range(rank)]
     n = int(np.prod(shape)) if shape else 1
-    return {"dt": dt, "shape": shape, "flat": [rand_payload(rng, dt) for _ in range(n)]}
+    e = {"dt": dt, "shape": shape, "flat": [rand_payload(rng, dt) for _ in range(n)]}
+    lay = rng.choice(LAYOUTS)
+    if lay != "C" and rank >= 1:
+        e["layout"] = lay  # memory layout of the array handed to geff; logical contents are 'flat' in C order
+    return e
 
 
 def abstract(a: np.ndarray) -> dict:
